@@ -1,11 +1,16 @@
-// Package seams holds the kernel seam the instrumenter substitutes into rewritten terway
+// Package seams holds the seams the instrumenter substitutes into rewritten terway
 // code: calls of pkg/link.GetDeviceNumber become seams.GetDeviceNumber, which asks the
 // simulated kernel first and falls through to the real function (and its real error value)
 // for anything the simulation does not know.
 package seams
 
 import (
+	"context"
+	"time"
+
 	"github.com/AliyunContainerService/terway/pkg/link"
+
+	"verif/sim/simrt"
 )
 
 // DeviceNumber, when set, answers for MAC addresses the simulated kernel has a device for.
@@ -18,4 +23,40 @@ func GetDeviceNumber(mac string) (int32, error) {
 		}
 	}
 	return link.GetDeviceNumber(mac)
+}
+
+// PollUntilContextTimeout replaces k8s.io/apimachinery/pkg/util/wait.PollUntilContextTimeout in
+// rewritten code. The original selects between its ticker and the context's deadline; when the
+// timeout is a multiple of the interval both are ready at the same (fake) instant and the Go
+// runtime picks one at random, which no seed controls. Here the tie is a seeded choice.
+func PollUntilContextTimeout(ctx context.Context, interval, timeout time.Duration, immediate bool, cond func(context.Context) (bool, error)) error {
+	ctx, cancel := context.WithTimeout(ctx, timeout)
+	defer cancel()
+	deadline := time.Now().Add(timeout)
+	if immediate {
+		if ok, err := cond(ctx); err != nil || ok {
+			return err
+		}
+	}
+	for {
+		next := time.Now().Add(interval)
+		if next.After(deadline) || (next.Equal(deadline) && simrt.Choose(2, "poll-deadline-tie") == 0) {
+			if d := time.Until(deadline); d > 0 {
+				simrt.Sleep(d)
+			}
+			return context.DeadlineExceeded
+		}
+		simrt.Sleep(interval)
+		if next.Before(deadline) {
+			if err := ctx.Err(); err != nil {
+				return err
+			}
+		}
+		if ok, err := cond(ctx); err != nil || ok {
+			return err
+		}
+		if !time.Now().Before(deadline) {
+			return context.DeadlineExceeded
+		}
+	}
 }
